@@ -260,6 +260,15 @@ def count_ge(conds, k):
     sym = [c for c in conds if c is not True]
     return z3.PbGe([(c, 1) for c in sym], k - nt)
 
+def count_eq(conds, k):
+    """exactly k of conds hold (conds may be python bools or formulas)"""
+    nt = sum(1 for c in conds if c is True)
+    sym = [c for c in conds if c is not True and c is not False]
+    k = k - nt
+    if k < 0 or k > len(sym): return False
+    if not sym: return k == 0
+    return z3.PbEq([(c, 1) for c in sym], k)
+
 class Expect:
     """what the documents determine for one element position, as formulas over the skeleton's features"""
     def __init__(self, occs):
